@@ -352,13 +352,19 @@ def RecOK (ops : Ops α) (B : Blk α) (L : Layout) (inps : List InSig) (st0 : Na
   ∃ σpre σa σb, σpre.st = st0 ∧ seed L o.sig (some (seedVals ops o)) σpre = .ok σa ∧
     B.sensitivity σa = .ok σb ∧ r.f0 = sigVals o.sig st0 ∧
     r.dxan = inps.map (fun i => if i.sig.hasSens σb then some (sigVals i.sig σb.se) else none) ∧
-    r.w = (if !o.sig.isSlice && L.keep o.sig.base then fun _ => 0 else seedVals ops o)
+    r.w = seedVals ops o
+
+theorem resetAll_st (B : Blk α) (S : Nat → Prop) (hB : BlkOK B S) (L : Layout) (extra : List Sig)
+    (σ : Store α) : (resetAll B L extra σ).st = σ.st := by
+  unfold resetAll
+  rw [(foldl_resetSig_st L extra (B.reset σ)).1, hB.reset_st]
 
 theorem analytical_spec (ops : Ops α) (B : Blk α) (S : Nat → Prop) (hB : BlkOK B S) (L : Layout)
-    (inps : List InSig) (P : Store α → Prop)
-    (hP : ∀ τ τ' : Store α, τ'.se = τ.se → τ'.hasSe = τ.hasSe → P τ → P τ') (hreset : ∀ τ, P (B.reset τ))
+    (extra : List Sig) (inps : List InSig) (P : Store α → Prop)
+    (hP : ∀ τ τ' : Store α, τ'.se = τ.se → τ'.hasSe = τ.hasSe → P τ → P τ')
+    (hreset : ∀ τ, P (resetAll B L extra τ))
     (outps : List (OutSig α)) (σ σ' : Store α) (recs : List (Option (OutRec α)))
-    (h : analytical ops B L inps outps σ = .ok (σ', recs)) :
+    (h : analytical ops B L extra inps outps σ = .ok (σ', recs)) :
     σ'.st = σ.st ∧ (P σ → P σ') ∧ recs.length = outps.length ∧
     ∀ (k : Nat) o r, outps[k]? = some o → recs[k]? = some (some r) → RecOK ops B L inps σ.st o r := by
   induction outps generalizing σ recs with
@@ -367,13 +373,13 @@ theorem analytical_spec (ops : Ops α) (B : Blk α) (S : Nat → Prop) (hB : Blk
     exact ⟨rfl, id, rfl, fun k o r ho => by simp at ho⟩
   | cons o os ih =>
     simp only [analytical] at h
-    cases h1 : analyticalOne ops B L inps o σ with
+    cases h1 : analyticalOne ops B L extra inps o σ with
     | error e => rw [h1] at h; cases h
     | ok pr =>
       obtain ⟨σ1, r1⟩ := pr
       rw [h1] at h
       simp only at h
-      cases h2 : analytical ops B L inps os σ1 with
+      cases h2 : analytical ops B L extra inps os σ1 with
       | error e => rw [h2] at h; cases h
       | ok pr2 =>
         obtain ⟨σ2, rs⟩ := pr2
@@ -401,7 +407,7 @@ theorem analytical_spec (ops : Ops α) (B : Blk α) (S : Nat → Prop) (hB : Blk
                 cases h1
                 have e1 : σa.st = σ.st := seed_st L _ _ _ _ h3
                 have e2 : σb.st = σa.st := hB.sens_st _ _ h4
-                refine ⟨by rw [hB.reset_st, e2, e1], fun _ => hreset _, fun r hr => ?_⟩
+                refine ⟨by rw [resetAll_st B S hB, e2, e1], fun _ => hreset _, fun r hr => ?_⟩
                 cases hr
                 exact ⟨σ, σa, σb, rfl, h3, h4, rfl, rfl, rfl⟩
         obtain ⟨b1, b2, b3⟩ := hhead
@@ -626,10 +632,11 @@ theorem entryLoop_spec (ops : Ops α) (B : Blk α) (S : Nat → Prop) (hB : BlkO
 theorem inputLoop_spec (ops : Ops α) (B : Blk α) (S : Nat → Prop) (hB : BlkOK B S) (cfg : Cfg α)
     (outps : List (OutSig α)) (recs : List (Option (OutRec α))) (st0 : Nat → α) (iin0 : Nat)
     (inps : List InSig) (hn : ∀ i ∈ inps, i.sig.ents.Nodup) (hS : ∀ i ∈ inps, ∀ e ∈ i.sig.ents, S e)
+    (hv : ∀ i ∈ inps, ∀ j ∈ i.visit, j < i.sig.ents.length)
     (σ σ' : Store α) (cs : List (Call α)) (h0 : ∀ e, S e → σ.st e = st0 e)
     (h : inputLoop ops B cfg outps recs iin0 inps σ = .ok (σ', cs)) :
     (∀ e, S e → σ'.st e = σ.st e) ∧ σ'.se = σ.se ∧ σ'.hasSe = σ.hasSe ∧
-    (∀ c ∈ cs, ∃ k i x, c.iin = iin0 + k ∧ inps[k]? = some i ∧
+    (∀ c ∈ cs, ∃ k i x, c.iin = iin0 + k ∧ inps[k]? = some i ∧ c.j ∈ i.visit ∧
       (∀ m, m < i.sig.ents.length → x m = st0 (i.sig.ents.getD m 0)) ∧
       CallOK ops B cfg outps recs S st0 i c.iin x c) := by
   induction inps generalizing iin0 σ cs with
@@ -638,8 +645,8 @@ theorem inputLoop_spec (ops : Ops α) (B : Blk α) (S : Nat → Prop) (hB : BlkO
     exact ⟨fun _ _ => rfl, rfl, rfl, by simp⟩
   | cons i is ih =>
     simp only [inputLoop] at h
-    split_ifs at h with hst
-    cases h1 : entryLoop ops B cfg i iin0 outps recs (sigVals i.sig σ.st) (List.range i.sig.ents.length) σ with
+    split_ifs at h with hst hun
+    cases h1 : entryLoop ops B cfg i iin0 outps recs (sigVals i.sig σ.st) i.visit σ with
     | error e => rw [h1] at h; cases h
     | ok pr =>
       obtain ⟨σ1, c1⟩ := pr
@@ -654,33 +661,36 @@ theorem inputLoop_spec (ops : Ops α) (B : Blk α) (S : Nat → Prop) (hB : BlkO
         have hx : ∀ e ∈ i.sig.ents, sigVals i.sig σ.st (i.sig.ents.idxOf e) = σ.st e := fun e he => by
           unfold sigVals; rw [getD_idxOf _ _ he]
         obtain ⟨a1, _, a3, a4, a5⟩ := entryLoop_spec ops B S hB cfg i hni iin0 outps recs _ st0
-          (List.range i.sig.ents.length) (fun j hj => List.mem_range.mp hj) σ σ1 c1 hx h0 h1
+          i.visit (hv i (by simp)) σ σ1 c1 hx h0 h1
         obtain ⟨d1, d3, d4, d5⟩ := ih (iin0 + 1) (fun i' hi' => hn i' (by simp [hi']))
-          (fun i' hi' => hS i' (by simp [hi'])) σ1 c2 (fun e he => (a1 e he).trans (h0 e he)) h2
+          (fun i' hi' => hS i' (by simp [hi'])) (fun i' hi' => hv i' (by simp [hi'])) σ1 c2
+          (fun e he => (a1 e he).trans (h0 e he)) h2
         refine ⟨fun e he => (d1 e he).trans (a1 e he), d3.trans a3, d4.trans a4, ?_⟩
         intro c hc
         rcases List.mem_append.mp hc with hc | hc
-        · obtain ⟨b1, _, b3⟩ := a5 c hc
-          refine ⟨0, i, sigVals i.sig σ.st, by simpa using b1, rfl, fun m hm => ?_, by rw [b1]; exact b3⟩
+        · obtain ⟨b1, b2, b3⟩ := a5 c hc
+          refine ⟨0, i, sigVals i.sig σ.st, by simpa using b1, rfl, b2, fun m hm => ?_, by rw [b1]; exact b3⟩
           unfold sigVals
           apply h0
           apply hS i (by simp)
           rw [List.getD_eq_getElem _ _ hm]; exact List.getElem_mem hm
-        · obtain ⟨k, i', x, e1, e2, e3, e4⟩ := d5 c hc
-          exact ⟨k + 1, i', x, by omega, by simpa using e2, e3, e4⟩
+        · obtain ⟨k, i', x, e1, e2, e2', e3, e4⟩ := d5 c hc
+          exact ⟨k + 1, i', x, by omega, by simpa using e2, e2', e3, e4⟩
 
 /-- `fdCore` unfolded into its three stages -/
 theorem fdCore_stages (ops : Ops α) (B : Blk α) (L : Layout) (cfg : Cfg α) (inps : List InSig)
     (outps : List (OutSig α)) (σ : Store α) (res : Res α)
     (h : fdCore ops B L cfg inps outps σ = .ok res) :
-    ∃ σ2 σ3 recs, B.response (B.reset σ) = .ok σ2 ∧ analytical ops B L inps outps σ2 = .ok (σ3, recs) ∧
+    ∃ σ2 σ3 recs, B.response (resetAll B L (inps.map (·.sig) ++ outps.map (·.sig)) σ) = .ok σ2 ∧
+      analytical ops B L (inps.map (·.sig) ++ outps.map (·.sig)) inps outps σ2 = .ok (σ3, recs) ∧
       inputLoop ops B cfg outps recs 0 inps σ3 = .ok (res.store, res.calls) := by
   unfold fdCore at h
-  cases h1 : B.response (B.reset σ) with
+  simp only at h
+  cases h1 : B.response (resetAll B L (inps.map (·.sig) ++ outps.map (·.sig)) σ) with
   | error e => rw [h1] at h; cases h
   | ok σ2 =>
     rw [h1] at h; simp only at h
-    cases h2 : analytical ops B L inps outps σ2 with
+    cases h2 : analytical ops B L (inps.map (·.sig) ++ outps.map (·.sig)) inps outps σ2 with
     | error e => rw [h2] at h; cases h
     | ok pr =>
       obtain ⟨σ3, recs⟩ := pr
